@@ -17,7 +17,7 @@ def run_jobs(pid, tier, jobs, level="translation_validation", timeout_ms=None, w
         jobs = [(c, cf) for c, cf in jobs if only in c.name]
     if not jobs:
         raise EngineError("no cases selected")
-    timeout_ms = timeout_ms or (60000 if tier == "quick" else 600000)
+    timeout_ms = timeout_ms or (300000 if tier == "quick" else 900000)
     t0 = time.time()
     results = req.run_cases(jobs, timeout_ms=timeout_ms)
     res = common.Result(pid, level)
